@@ -219,6 +219,7 @@ pub fn facts_of(case: &Case, finding: &Finding) -> J {
         f.set("min0_variable_greedy_repeat2", J::Bool(a2.has_min0_variable_greedy_repeat()));
     }
     f.set("pattern_len", J::u(case.pattern.chars().count() as u64));
+    f.set("dotted_capital_i", J::Bool(case.pattern.contains('\u{130}') || case.input.contains('\u{130}')));
     f.set("flags", J::s(&case.flags));
     // panic site without line number: file + message
     if finding.kind.starts_with("panic") || finding.observed.starts_with("panic at ") {
